@@ -37,6 +37,9 @@ func main() {
 		if a == "-child" && i+1 < len(os.Args) {
 			os.Exit(childMain(os.Args[i+1]))
 		}
+		if a == "-storm" && i+2 < len(os.Args) {
+			os.Exit(stormChild(os.Args[i+1], os.Args[i+2]))
+		}
 	}
 	parent()
 }
@@ -91,6 +94,7 @@ func parent() {
 		}(br)
 	}
 	wg.Wait()
+	storms(r, bin, runDir)
 
 	// ---- aggregate
 	byID := map[int]caseDesc{}
